@@ -17,7 +17,8 @@
    fact about them that the proofs use is inside the decidable premise names_okb (directory names of distinct DAGs differ).
 
    Model of the REPAIRED store (fix commits e6d6379 anchored time stamp with milliseconds, 8ffc003 escaped glob patterns, e2affa2
-   append-mode descriptors, 3aa388e readers skip files without a parseable status).  The statements below are the FULL statements of
+   append-mode descriptors, 3aa388e readers skip files without a parseable status, eb925d1 compaction through a temporary copy and
+   dropCompacted, 32b069b writer.open terminates a torn line, fe0ec16 AddYamlExtension in Rename).  The statements below are the FULL statements of
    the property; the premises that existed only because of F6a (start stamps distinct at SECONDS), F6b/F6c (names without glob
    metacharacters / stamp-like substrings), F6d (no update during a run) are gone - the former refutation witnesses are now positive
    Examples.  Remaining premises, all decidable and evaluated by the check on every generated history, and why they remain:
